@@ -21,3 +21,113 @@ def utf8Char (c : Char) : Bytes :=
 def utf8Of (s : List Char) : Bytes := s.flatMap utf8Char
 
 end Sv.Rpc
+
+/-!
+  ## The other direction: `bytes.decode('utf-8')` (strict) and the str/bytes helpers of supervisor.compat
+
+  The request body of an XML-RPC call reaches the server as the byte chunks the socket happens to
+  deliver.  `supervisor.medusa.xmlrpc_handler.collector` keeps them and hands `continue_request`
+  one text.  The generated definitions `collData_c0_0` (what is kept per chunk) and `collFound_c0_0`
+  (what is handed over) are expressions over the helpers below; `Except.error` = the exception raised.
+-/
+namespace Sv.Rpc
+
+/-- state of the strict UTF-8 decoder between two bytes: characters decoded so far (in order),
+    continuation bytes still owed, the code point bits gathered, and the admissible range of the next
+    continuation byte (narrower than 80..BF after E0, ED, F0, F4: no overlong forms, no surrogates,
+    nothing above U+10FFFF — Unicode table 3-7, which is what CPython's decoder accepts) -/
+structure Dec where
+  out : List Char
+  need : Nat
+  acc : Nat
+  lo : Nat
+  hi : Nat
+deriving DecidableEq, Repr
+
+def Dec.init : Dec := { out := [], need := 0, acc := 0, lo := 0x80, hi := 0xBF }
+
+/-- one byte; `none` = UnicodeDecodeError (invalid start byte / invalid continuation byte) -/
+def Dec.step (d : Dec) (b : UInt8) : Option Dec :=
+  let n := b.toNat
+  match d.need with
+  | 0 =>
+    if n < 0x80 then some { d with out := d.out ++ [Char.ofNat n] }
+    else if n < 0xC2 then none
+    else if n < 0xE0 then some { d with need := 1, acc := n - 0xC0, lo := 0x80, hi := 0xBF }
+    else if n < 0xF0 then
+      some { d with need := 2, acc := n - 0xE0, lo := (if n = 0xE0 then 0xA0 else 0x80), hi := (if n = 0xED then 0x9F else 0xBF) }
+    else if n < 0xF5 then
+      some { d with need := 3, acc := n - 0xF0, lo := (if n = 0xF0 then 0x90 else 0x80), hi := (if n = 0xF4 then 0x8F else 0xBF) }
+    else none
+  | k+1 =>
+    if d.lo ≤ n ∧ n ≤ d.hi then
+      let acc := d.acc * 64 + (n - 0x80)
+      match k with
+      | 0 => some { out := d.out ++ [Char.ofNat acc], need := 0, acc := 0, lo := 0x80, hi := 0xBF }
+      | k'+1 => some { d with need := k'+1, acc := acc, lo := 0x80, hi := 0xBF }
+    else none
+
+def Dec.run : Option Dec → Bytes → Option Dec
+  | d, [] => d
+  | none, _ => none
+  | some d, b :: bs => Dec.run (d.step b) bs
+
+/-- end of input: an unfinished character is "unexpected end of data" -/
+def Dec.finish : Option Dec → Option (List Char)
+  | some d => if d.need = 0 then some d.out else none
+  | none => none
+
+/-- `b.decode('utf-8')` (errors='strict'): the text, or `none` = UnicodeDecodeError -/
+def decodeUtf8 (b : Bytes) : Option (List Char) := Dec.finish (Dec.run (some Dec.init) b)
+
+/-- a Python 3 value that is `bytes` or `str` -/
+inductive PyStr
+  | bytes (b : Bytes)
+  | text (t : List Char)
+deriving DecidableEq, Repr
+
+/-- `supervisor.compat.as_string(s)`: a str is returned as it is, bytes are decoded (strictly) -/
+def asString : PyStr → Except String PyStr
+  | .text t => .ok (.text t)
+  | .bytes b =>
+    match decodeUtf8 b with
+    | some t => .ok (.text t)
+    | none => .error "UnicodeDecodeError"
+
+/-- `supervisor.compat.as_bytes(s)` -/
+def asBytes : PyStr → Except String PyStr
+  | .bytes b => .ok (.bytes b)
+  | .text t => .ok (.bytes (utf8Of t))
+
+/-- `x.decode('utf-8')`: only bytes have it -/
+def pyDecode : PyStr → Except String PyStr
+  | .bytes b => asString (.bytes b)
+  | .text _ => .error "AttributeError"
+
+/-- `b''.join(xs)`: every item must be bytes -/
+def joinBytes : List PyStr → Except String PyStr
+  | [] => .ok (.bytes [])
+  | .bytes b :: r =>
+    match joinBytes r with
+    | .ok (.bytes b') => .ok (.bytes (b ++ b'))
+    | .ok (.text _) => .error "TypeError"
+    | .error e => .error e
+  | .text _ :: _ => .error "TypeError"
+
+/-- `''.join(xs)`: every item must be str -/
+def joinText : List PyStr → Except String PyStr
+  | [] => .ok (.text [])
+  | .text t :: r =>
+    match joinText r with
+    | .ok (.text t') => .ok (.text (t ++ t'))
+    | .ok (.bytes _) => .error "TypeError"
+    | .error e => .error e
+  | .bytes _ :: _ => .error "TypeError"
+
+/-- `a + b` on str/bytes -/
+def pyConcat : PyStr → PyStr → Except String PyStr
+  | .bytes a, .bytes b => .ok (.bytes (a ++ b))
+  | .text a, .text b => .ok (.text (a ++ b))
+  | _, _ => .error "TypeError"
+
+end Sv.Rpc
